@@ -798,3 +798,984 @@ Proof.
     apply N.eqb_eq in Hid. rewrite Hid. reflexivity.
   - intros t' Hne. apply (state_cs_drive_other w tr p t' Hd Hne).
 Qed.
+
+(* ================================================================== function bits (bidib_set_train_peripheral + bidib_state_cs_drive) *)
+Local Ltac Zify.zify_post_hook ::= Z.to_euclidean_division_equations.
+
+Lemma nrange_in n : forall lo x, lo <= x < lo + N.of_nat n -> In x (nrange lo n).
+Proof. induction n as [|n IH]; intros lo x Hx; [lia|]. cbn. destruct (N.eq_dec lo x); [left; assumption|right]. apply IH. lia. Qed.
+
+Lemma nrange_bounds n : forall lo x, In x (nrange lo n) -> lo <= x < lo + N.of_nat n.
+Proof. induction n as [|n IH]; intros lo x Hx; [contradiction|]. cbn in Hx. destruct Hx as [<-|Hx]; [lia|]. apply IH in Hx. lia. Qed.
+
+Lemma testbit_lt_pow2 x n : (forall k, n <= k -> N.testbit x k = false) -> x < 2 ^ n.
+Proof.
+  intros H. destruct (N.lt_ge_cases x (2 ^ n)) as [L|G]; [exact L|exfalso].
+  assert (x <> 0) as Hx. { intros ->. pose proof (N.pow_nonzero 2 n). lia. }
+  pose proof (N.bit_log2 x Hx) as B. rewrite H in B; [discriminate|].
+  apply N.log2_le_pow2; lia.
+Qed.
+
+Lemma c_bits v j k : v <= 1 -> j < 8 -> N.testbit (byte (N.shiftl v j)) k = (v =? 1) && (j =? k).
+Proof.
+  intros Hv Hj. assert (v = 0 \/ v = 1) as [->| ->] by lia.
+  - rewrite N.shiftl_0_l. reflexivity.
+  - unfold byte. rewrite N.shiftl_mul_pow2, N.mul_1_l, N.mod_small.
+    + rewrite N.pow2_bits_eqb. reflexivity.
+    + change 256 with (2 ^ 8). apply N.pow_lt_mono_r; lia.
+Qed.
+
+Lemma land_shiftr_1 a n : N.land (N.shiftr a n) 1 = if N.testbit a n then 1 else 0.
+Proof.
+  change 1 with (N.ones 1) at 1. rewrite N.land_ones. change (2 ^ 1) with 2.
+  rewrite <- N.bit0_mod, N.shiftr_spec', N.add_0_l. destruct (N.testbit a n); reflexivity.
+Qed.
+
+Definition pval (ps : list tpst) (id : N) : N :=
+  match find (fun q => tq_id q =? id) ps with Some q => tq_state q | None => 0 end.
+
+Definition in_grp (lo hi x : N) : bool := (lo <=? x) && (x <=? hi).
+
+Definition contrib (lo hi : N) (ps : list tpst) (acc : N) (m' : tperiph) : N :=
+  if in_grp lo hi (tp_bit m') then N.lor acc (byte (N.shiftl (pval ps (tp_id m')) (tp_bit m' mod 8))) else acc.
+
+Lemma contrib_bits lo hi ps l : (forall m', In m' l -> pval ps (tp_id m') <= 1) -> forall acc k,
+  N.testbit (fold_left (contrib lo hi ps) l acc) k =
+  N.testbit acc k || existsb (fun m' => in_grp lo hi (tp_bit m') && (tp_bit m' mod 8 =? k) && (pval ps (tp_id m') =? 1)) l.
+Proof.
+  induction l as [|x l IH]; intros Hv acc k; [cbn; rewrite orb_false_r; reflexivity|].
+  cbn [fold_left existsb]. rewrite IH by (intros; apply Hv; right; assumption). unfold contrib at 1.
+  destruct (in_grp lo hi (tp_bit x)); cbn [andb].
+  - rewrite N.lor_spec, c_bits; [|apply Hv; left; reflexivity|lia].
+    rewrite (andb_comm (pval ps (tp_id x) =? 1)). rewrite orb_assoc. reflexivity.
+  - reflexivity.
+Qed.
+
+Lemma group_facts bit act lo hi idx : tp_group bit = (act, lo, hi, idx) -> bit < 5 \/ 8 <= bit -> bit < 32 ->
+  lo <= bit <= hi /\ hi < 32 /\ (idx < 4)%nat /\
+  (forall i, lo <= i <= hi -> N.to_nat (i / 8) = idx) /\
+  (forall i j, lo <= i <= hi -> lo <= j <= hi -> i mod 8 = j mod 8 -> i = j) /\
+  (bit < 5 -> forall i, lo <= i <= hi -> i mod 8 < 5) /\
+  (8 <= bit -> idx <> 0%nat).
+Proof.
+  unfold tp_group. intros H Hg H32.
+  destruct (bit <? 5) eqn:E1; [apply N.ltb_lt in E1|apply N.ltb_ge in E1; destruct (bit <? 12) eqn:E2;
+    [apply N.ltb_lt in E2|apply N.ltb_ge in E2; destruct (bit <? 16) eqn:E3;
+      [apply N.ltb_lt in E3|apply N.ltb_ge in E3; destruct (bit <? 24) eqn:E4; [apply N.ltb_lt in E4|apply N.ltb_ge in E4]]]];
+  inversion H; subst; repeat split; intros; try lia.
+Qed.
+
+Section Fn.
+  Variables (w : world) (tr : train) (ts : tst).
+  Hypothesis Hwf : wfb w = true.
+  Hypothesis Htr : In tr (w_trains w).
+  Hypothesis Hts : find_tst w (tr_id tr) = Some ts.
+  Hypothesis Hwts : wf_tst tr ts = true.
+  Let pers := tr_pers tr.
+  Let ps := ts_pers ts.
+
+  Lemma fn_tsid : ts_id ts = tr_id tr.
+  Proof. unfold wf_tst in Hwts. apply andb_true_iff in Hwts as [H _]. apply andb_true_iff in H as [H _]. apply N.eqb_eq, H. Qed.
+  Lemma fn_ids : map tq_id ps = map tp_id pers.
+  Proof. unfold wf_tst in Hwts. apply andb_true_iff in Hwts as [H _]. apply andb_true_iff in H as [_ H]. apply list_eqb_eq, H. Qed.
+  Lemma fn_le q : In q ps -> tq_state q <= 1.
+  Proof. unfold wf_tst in Hwts. apply andb_true_iff in Hwts as [_ H]. intros Hq. apply N.leb_le. exact (proj1 (forallb_forall _ _) H q Hq). Qed.
+  Lemma fn_wftrain : NoDup (map tp_id pers) /\ NoDup (map tp_bit pers) /\ forall m', In m' pers -> tp_bit m' < 32.
+  Proof.
+    pose proof (wfb_parts w Hwf) as (_ & _ & _ & Hwt & _).
+    pose proof (proj1 (forallb_forall _ _) Hwt tr Htr) as W. unfold wf_train in W.
+    apply andb_true_iff in W as [W _]. apply andb_true_iff in W as [W W3]. apply andb_true_iff in W as [W1 W2].
+    split; [apply nodupb_NoDup, W1|]. split; [apply nodupb_NoDup, W2|].
+    intros m' Hm. apply N.ltb_lt. exact (proj1 (forallb_forall _ _) W3 m' Hm).
+  Qed.
+
+  Lemma pval_le l id : (forall q, In q l -> tq_state q <= 1) -> pval l id <= 1.
+  Proof.
+    intros H. unfold pval. destruct (find (fun q => tq_id q =? id) l) as [q|] eqn:E; [|lia].
+    apply find_some in E as [E _]. apply H, E.
+  Qed.
+
+  Lemma pstate_ok m' : In m' pers ->
+    exists q, pstate_by_bit w ts (tp_bit m') = Some q /\ tq_state q = pval ps (tp_id m').
+  Proof.
+    intros Hm. destruct fn_wftrain as (Hn1 & Hn2 & _).
+    unfold pstate_by_bit. rewrite fn_tsid, (find_train_unique w tr Hwf Htr).
+    fold pers. rewrite (find_unique tp_bit pers m' Hn2 Hm). unfold pval. fold ps.
+    destruct (find (fun q => tq_id q =? tp_id m') ps) as [q|] eqn:E; [exists q; auto|].
+    exfalso. assert (In (tp_id m') (map tq_id ps)) as Hin by (rewrite fn_ids; apply in_map, Hm).
+    apply (existsb_key_in tq_id) in Hin. apply existsb_exists in Hin as [q [Hq1 Hq2]].
+    apply (find_none _ _ E) in Hq1. congruence.
+  Qed.
+
+  Lemma cur_bits_ok lo hi : cur_bits w tr lo hi = inr (fold_left (contrib lo hi ps) pers 0).
+  Proof.
+    unfold cur_bits. rewrite Hts. fold pers.
+    assert (forall l acc, (forall m', In m' l -> In m' pers) ->
+              fold_left (cur_bits_step w (Some ts) lo hi) l (inr acc) = inr (fold_left (contrib lo hi ps) l acc)) as G.
+    { induction l as [|x l IH]; intros acc Hin; [reflexivity|]. cbn [fold_left].
+      unfold cur_bits_step at 2. unfold contrib at 2. unfold in_grp.
+      destruct ((lo <=? tp_bit x) && (tp_bit x <=? hi)).
+      - destruct (pstate_ok x (Hin x (or_introl eq_refl))) as [q [Hq1 Hq2]]. rewrite Hq1, Hq2.
+        apply IH. intros; apply Hin; right; assumption.
+      - apply IH. intros; apply Hin; right; assumption. }
+    apply G. auto.
+  Qed.
+
+  (* ---- the command *)
+  Variables (b : board) (m : tperiph) (st : N).
+  Hypothesis Hb : In b (w_boards w).
+  Hypothesis Hc : b_conn b = true.
+  Hypothesis Hk : is_track_output b = true.
+  Hypothesis Hh : tr_addrh tr < 64.
+  Hypothesis Hm : In m pers.
+  Hypothesis Hst : st <= 1.
+  Hypothesis Hg : tp_bit m < 5 \/ 8 <= tp_bit m.
+  Let bit := tp_bit m.
+  Let per := tp_id m.
+
+  Definition fn_byte (lo hi : N) : N :=
+    N.lor (N.clearbit (fold_left (contrib lo hi ps) pers 0) (bit mod 8)) (byte (N.shiftl st (bit mod 8))).
+
+  Lemma fn_byte_bits lo hi k : N.testbit (fn_byte lo hi) k =
+    if k =? bit mod 8 then st =? 1
+    else existsb (fun m' => in_grp lo hi (tp_bit m') && (tp_bit m' mod 8 =? k) && (pval ps (tp_id m') =? 1)) pers.
+  Proof.
+    unfold fn_byte. rewrite N.lor_spec, c_bits by lia. rewrite N.clearbit_eqb, contrib_bits.
+    2:{ intros. apply pval_le. apply fn_le. }
+    rewrite N.bits_0. cbn [orb]. rewrite (N.eqb_sym k). destruct (bit mod 8 =? k); cbn [negb].
+    - rewrite andb_false_r, andb_true_r. reflexivity.
+    - rewrite andb_true_r, andb_false_r, orb_false_r. reflexivity.
+  Qed.
+
+  Lemma fn_find_m : find (fun m0 => tp_id m0 =? per) pers = Some m.
+  Proof. destruct fn_wftrain as (Hn1 & _). apply (find_unique tp_id); assumption. Qed.
+
+  Lemma pers_bit_inj m1 m2 : In m1 pers -> In m2 pers -> tp_bit m1 = tp_bit m2 -> m1 = m2.
+  Proof.
+    intros H1 H2 E. destruct fn_wftrain as (_ & Hn2 & _).
+    pose proof (find_unique tp_bit pers m1 Hn2 H1) as F1. pose proof (find_unique tp_bit pers m2 Hn2 H2) as F2.
+    rewrite E in F1. congruence.
+  Qed.
+  Lemma pers_id_inj m1 m2 : In m1 pers -> In m2 pers -> tp_id m1 = tp_id m2 -> m1 = m2.
+  Proof.
+    intros H1 H2 E. destruct fn_wftrain as (Hn1 & _).
+    pose proof (find_unique tp_id pers m1 Hn1 H1) as F1. pose proof (find_unique tp_id pers m2 Hn1 H2) as F2.
+    rewrite E in F1. congruence.
+  Qed.
+
+  Variables (act lo hi : N) (idx : nat).
+  Hypothesis Eg : tp_group bit = (act, lo, hi, idx).
+
+  Lemma fn_bit32 : bit < 32.
+  Proof. destruct fn_wftrain as (_ & _ & H). apply H, Hm. Qed.
+
+  Let GF := group_facts bit act lo hi idx Eg Hg fn_bit32.
+  Let fb := set_nth idx (fn_byte lo hi) [0; 0; 0; 0].
+  Let U := upd_first (fun q => tq_id q =? per) (fun q => mk_tpst (tq_id q) st).
+
+  Lemma fb_nth : nth idx fb 0 = fn_byte lo hi.
+  Proof.
+    destruct GF as (_ & _ & Hi & _). unfold fb.
+    destruct idx as [|[|[|[|?]]]]; try reflexivity. lia.
+  Qed.
+
+  Lemma fbit_grp i : lo <= i <= hi -> fbit fb i = if N.testbit (fn_byte lo hi) (i mod 8) then 1 else 0.
+  Proof.
+    intros Hi. destruct GF as (_ & _ & _ & Hidx & _). unfold fbit. rewrite (Hidx i Hi), fb_nth. apply land_shiftr_1.
+  Qed.
+
+  Lemma fbit_own : fbit fb bit = st.
+  Proof.
+    destruct GF as (Hr & _). rewrite (fbit_grp bit Hr), fn_byte_bits, N.eqb_refl.
+    assert (st = 0 \/ st = 1) as [->| ->] by lia; reflexivity.
+  Qed.
+
+  Lemma fbit_other i m' : lo <= i <= hi -> i <> bit -> In m' pers -> tp_bit m' = i -> fbit fb i = pval ps (tp_id m').
+  Proof.
+    intros Hi Hne Hm' Hbm. destruct GF as (Hr & _ & _ & _ & Hinj & _).
+    rewrite (fbit_grp i Hi), fn_byte_bits.
+    assert ((i mod 8 =? bit mod 8) = false) as E. { apply N.eqb_neq. intros E. apply Hne. apply Hinj; assumption. }
+    rewrite E.
+    assert (existsb (fun m'' => in_grp lo hi (tp_bit m'') && (tp_bit m'' mod 8 =? i mod 8) && (pval ps (tp_id m'') =? 1)) pers
+            = (pval ps (tp_id m') =? 1)) as X.
+    { apply eq_iff_eq_true. rewrite existsb_exists. split.
+      - intros [m'' [Hin H]]. apply andb_true_iff in H as [H H3]. apply andb_true_iff in H as [H1 H2].
+        unfold in_grp in H1. apply andb_true_iff in H1 as [H1a H1b]. apply N.leb_le in H1a, H1b. apply N.eqb_eq in H2.
+        assert (tp_bit m'' = i) as Eb by (apply Hinj; [lia|lia|exact H2]).
+        rewrite <- Hbm in Eb. rewrite (pers_bit_inj m'' m' Hin Hm' Eb) in H3. exact H3.
+      - intros H. exists m'. split; [exact Hm'|]. rewrite H, Hbm, N.eqb_refl. unfold in_grp.
+        destruct Hi as [Hi1 Hi2]. apply N.leb_le in Hi1, Hi2. rewrite Hi1, Hi2. reflexivity. }
+    rewrite X. pose proof (pval_le ps (tp_id m') fn_le) as L.
+    assert (pval ps (tp_id m') = 0 \/ pval ps (tp_id m') = 1) as [-> | ->] by lia; reflexivity.
+  Qed.
+
+  Lemma fn_byte_lt32 : bit < 5 -> (31 <? fn_byte lo hi) = false.
+  Proof.
+    intros H5. apply N.ltb_ge. destruct GF as (Hr & _ & _ & _ & _ & H5' & _).
+    assert (fn_byte lo hi < 2 ^ 5) as L; [|change (2 ^ 5) with 32 in L; lia].
+    apply testbit_lt_pow2. intros k Hk5. rewrite fn_byte_bits.
+    assert ((k =? bit mod 8) = false) as E by (apply N.eqb_neq; lia). rewrite E.
+    destruct (existsb _ pers) eqn:X; [|reflexivity]. exfalso.
+    apply existsb_exists in X as [m'' [Hin H]]. apply andb_true_iff in H as [H _]. apply andb_true_iff in H as [H1 H2].
+    unfold in_grp in H1. apply andb_true_iff in H1 as [H1a H1b]. apply N.leb_le in H1a, H1b. apply N.eqb_eq in H2.
+    pose proof (H5' H5 (tp_bit m'') (conj H1a H1b)). lia.
+  Qed.
+
+  (* ---- bidib_state_cs_drive's loop over the group *)
+  Definition cur_ok (cur : list tpst) : Prop :=
+    map tq_id cur = map tq_id ps /\ forall id, id <> per -> pval cur id = pval ps id.
+
+  Lemma cur_ok_ps : cur_ok ps.
+  Proof. split; auto. Qed.
+  Lemma cur_ok_U : cur_ok (U ps).
+  Proof.
+    split; [apply (upd_first_keys tq_id); reflexivity|]. intros id Hne. unfold pval, U.
+    rewrite (find_upd_first_other tq_id); [reflexivity|reflexivity|exact Hne].
+  Qed.
+
+  Lemma drive_bit_own cur : drive_bit w (ts_id ts) fb cur bit = U cur.
+  Proof.
+    destruct fn_wftrain as (_ & Hn2 & _).
+    unfold drive_bit. rewrite fn_tsid, (find_train_unique w tr Hwf Htr). fold pers.
+    unfold bit at 1. rewrite (find_unique tp_bit pers m Hn2 Hm). fold bit. rewrite fbit_own. reflexivity.
+  Qed.
+
+  Lemma upd_first_find_id {A} (p : A -> bool) (f : A -> A) l x : find p l = Some x -> f x = x -> upd_first p f l = l.
+  Proof.
+    induction l as [|y l IH]; [discriminate|]. cbn. destruct (p y) eqn:E.
+    - intros H Hf. inversion H; subst. rewrite Hf. reflexivity.
+    - intros H Hf. rewrite IH; auto.
+  Qed.
+
+  Lemma drive_bit_other cur i : cur_ok cur -> lo <= i <= hi -> i <> bit -> drive_bit w (ts_id ts) fb cur i = cur.
+  Proof.
+    intros [Hk1 Hk2] Hi Hne. unfold drive_bit. rewrite fn_tsid, (find_train_unique w tr Hwf Htr). fold pers.
+    destruct (find (fun m0 => tp_bit m0 =? i) pers) as [m'|] eqn:E; [|reflexivity].
+    apply (find_key_in tp_bit) in E as [Hm' Hbm].
+    rewrite (fbit_other i m' Hi Hne Hm' Hbm).
+    assert (tp_id m' <> per) as Hidne.
+    { intros E. apply Hne. rewrite <- Hbm. unfold bit. f_equal. apply pers_id_inj; assumption. }
+    destruct (find (fun q => tq_id q =? tp_id m') cur) as [q|] eqn:Eq.
+    - apply (upd_first_find_id _ _ _ q Eq). rewrite <- (Hk2 _ Hidne). unfold pval. rewrite Eq. destruct q; reflexivity.
+    - exfalso. assert (In (tp_id m') (map tq_id cur)) as Hin by (rewrite Hk1, fn_ids; apply in_map, Hm').
+      apply (existsb_key_in tq_id) in Hin. apply existsb_exists in Hin as [q [Hq1 Hq2]].
+      apply (find_none _ _ Eq) in Hq1. congruence.
+  Qed.
+
+  Lemma U_idem l : U (U l) = U l.
+  Proof.
+    unfold U. induction l as [|x l IH]; [reflexivity|]. cbn. destruct (tq_id x =? per) eqn:E; cbn; rewrite E; [reflexivity|].
+    rewrite IH. reflexivity.
+  Qed.
+
+  Lemma drive_fold is : (forall i, In i is -> lo <= i <= hi) -> forall cur, cur = ps \/ cur = U ps ->
+    fold_left (drive_bit w (ts_id ts) fb) is cur = if existsb (N.eqb bit) is then U ps else cur.
+  Proof.
+    induction is as [|i is IH]; intros Hr cur Hcur; [reflexivity|]. cbn [fold_left existsb].
+    destruct (bit =? i) eqn:E.
+    - apply N.eqb_eq in E. subst i. rewrite drive_bit_own. cbn [orb].
+      assert (U cur = U ps) as -> by (destruct Hcur as [->| ->]; [reflexivity|apply U_idem]).
+      rewrite IH; [|intros; apply Hr; right; assumption|right; reflexivity]. destruct (existsb (N.eqb bit) is); reflexivity.
+    - apply N.eqb_neq in E. rewrite drive_bit_other.
+      + cbn [orb]. apply IH; [intros; apply Hr; right; assumption|exact Hcur].
+      + destruct Hcur as [->| ->]; [apply cur_ok_ps|apply cur_ok_U].
+      + apply Hr. left. reflexivity.
+      + congruence.
+  Qed.
+
+  Lemma drive_group_ok n : hi + 1 = lo + N.of_nat n -> drive_group w (ts_id ts) fb lo n ps = U ps.
+  Proof.
+    intros Hn. unfold drive_group. rewrite drive_fold.
+    - assert (existsb (N.eqb bit) (nrange lo n) = true) as ->; [|reflexivity].
+      apply existsb_exists. exists bit. split; [|apply N.eqb_refl]. apply nrange_in. destruct GF as (Hr & _). lia.
+    - intros i Hi. apply nrange_bounds in Hi. lia.
+    - left. reflexivity.
+  Qed.
+
+  Definition fn_drive : drive :=
+    mk_drive (tr_addrl tr) (tr_addrh tr) (steps_fmt (tr_steps tr)) act 0 (nth 0 fb 0) (nth 1 fb 0) (nth 2 fb 0) (nth 3 fb 0).
+
+  Lemma tper_cmd_eq : act <= 63 ->
+    set_train_peripheral w (tr_id tr) per st (b_id b) =
+    Done 0 [(b_addr b, MSG_CS_DRIVE, drive_data fn_drive)] (state_cs_drive w fn_drive).
+  Proof.
+    intros Ha. unfold set_train_peripheral.
+    rewrite (find_train_unique w tr Hwf Htr), (find_board_unique w b Hwf Hb), Hc, Hk. cbn [negb].
+    fold pers. rewrite fn_find_m. fold bit. rewrite Eg, cur_bits_ok.
+    assert ((32 <=? bit) = false) as -> by (apply N.leb_gt, fn_bit32).
+    destruct GF as (Hr & _ & Hi & Hidx & _ & _ & H8). rewrite (Hidx bit Hr).
+    assert (set_nth idx (N.lor (N.clearbit (nth idx (set_nth idx (fold_left (contrib lo hi ps) pers 0) [0; 0; 0; 0]) 0) (bit mod 8))
+                               (byte (N.shiftl st (bit mod 8))))
+                    (set_nth idx (fold_left (contrib lo hi ps) pers 0) [0; 0; 0; 0]) = fb) as ->.
+    { unfold fb, fn_byte. destruct idx as [|[|[|[|?]]]]; try reflexivity. lia. }
+    fold fn_drive. unfold send_cs_drive.
+    assert (dv_fmt fn_drive = steps_fmt (tr_steps tr)) as -> by reflexivity. rewrite steps_fmt_ok.
+    assert (dv_active fn_drive = act) as -> by reflexivity. apply N.ltb_ge in Ha. rewrite Ha.
+    assert ((31 <? dv_f1 fn_drive) = false) as ->; [|reflexivity].
+    cbn [dv_f1 fn_drive].
+    assert (idx = 0 \/ idx = 1 \/ idx = 2 \/ idx = 3)%nat as [Ei|[Ei|[Ei|Ei]]] by lia;
+      try (unfold fb; rewrite Ei; reflexivity).
+    replace (nth 0 fb 0) with (fn_byte lo hi) by (unfold fb; rewrite Ei; reflexivity).
+    apply fn_byte_lt32. destruct Hg as [L|G]; [exact L|]. exfalso. apply (H8 G). exact Ei.
+  Qed.
+End Fn.
+
+Lemma group_cases bit : bit < 5 \/ 8 <= bit -> bit < 32 ->
+  tp_group bit = (2, 0, 4, 0%nat) \/ tp_group bit = (4, 8, 11, 1%nat) \/ tp_group bit = (8, 12, 15, 1%nat) \/
+  tp_group bit = (16, 16, 23, 2%nat) \/ tp_group bit = (32, 24, 31, 3%nat).
+Proof.
+  intros Hg H32. unfold tp_group.
+  destruct (bit <? 5); [auto|]. destruct (bit <? 12); [auto|]. destruct (bit <? 16); [auto|]. destruct (bit <? 24); auto 6.
+Qed.
+
+Definition fn_spec_bit (tr : train) (ts : tst) (m : tperiph) (st lo hi k : N) : bool :=
+  if k =? tp_bit m mod 8 then st =? 1
+  else existsb (fun m' => in_grp lo hi (tp_bit m') && (tp_bit m' mod 8 =? k) && (pval (ts_pers ts) (tp_id m') =? 1)) (tr_pers tr).
+
+Theorem functions_ok w tr b m st : wfb w = true ->
+  In tr (w_trains w) -> In b (w_boards w) -> b_conn b = true -> is_track_output b = true -> tr_addrh tr < 64 ->
+  In m (tr_pers tr) -> st <= 1 -> tp_bit m < 5 \/ 8 <= tp_bit m ->
+  exists ts w' act lo hi idx fbyte,
+    find_tst w (tr_id tr) = Some ts /\ tp_group (tp_bit m) = (act, lo, hi, idx) /\
+    cmd w (SetTrainPeripheral (tr_id tr) (tp_id m) st (b_id b)) =
+      Done 0 [(b_addr b, MSG_CS_DRIVE,
+               [tr_addrl tr; tr_addrh tr; steps_fmt (tr_steps tr); act; 0] ++ set_nth idx fbyte [0; 0; 0; 0])] w' /\
+    (forall k, N.testbit fbyte k = fn_spec_bit tr ts m st lo hi k) /\
+    find_tst w' (tr_id tr) =
+      Some (mk_tst (tr_id tr) (ts_speed ts) (ts_fwd ts) 4
+                   (upd_first (fun q => tq_id q =? tp_id m) (fun q => mk_tpst (tq_id q) st) (ts_pers ts))) /\
+    (forall t', t' <> tr_id tr -> find_tst w' t' = find_tst w t') /\
+    w_boards w' = w_boards w /\ w_trains w' = w_trains w /\ w_dpts w' = w_dpts w /\ w_dsigs w' = w_dsigs w /\ w_revs w' = w_revs w.
+Proof.
+  intros Hwf Htr Hb Hc Hk Hh Hm Hst Hg.
+  destruct (tst_of_train w tr Hwf Htr) as [ts [Hts Hwts]].
+  assert (tp_bit m < 32) as H32 by (apply (fn_bit32 w tr Hwf Htr m Hm)).
+  assert (forall act lo hi idx n, tp_group (tp_bit m) = (act, lo, hi, idx) -> act <= 63 -> hi + 1 = lo + N.of_nat n ->
+            (forall p : drive, dv_active p = act ->
+               ts_pers (drive_update w p ts) = drive_group w (ts_id ts) [dv_f1 p; dv_f2 p; dv_f3 p; dv_f4 p] lo n (ts_pers ts) /\
+               ts_speed (drive_update w p ts) = ts_speed ts /\ ts_fwd (drive_update w p ts) = ts_fwd ts /\
+               ts_ack (drive_update w p ts) = 4 /\ ts_id (drive_update w p ts) = ts_id ts) ->
+            [nth 0 (set_nth idx (fn_byte tr ts m st lo hi) [0; 0; 0; 0]) 0; nth 1 (set_nth idx (fn_byte tr ts m st lo hi) [0; 0; 0; 0]) 0;
+             nth 2 (set_nth idx (fn_byte tr ts m st lo hi) [0; 0; 0; 0]) 0; nth 3 (set_nth idx (fn_byte tr ts m st lo hi) [0; 0; 0; 0]) 0]
+            = set_nth idx (fn_byte tr ts m st lo hi) [0; 0; 0; 0] ->
+            exists ts0 w' act0 lo0 hi0 idx0 fbyte,
+              find_tst w (tr_id tr) = Some ts0 /\ tp_group (tp_bit m) = (act0, lo0, hi0, idx0) /\
+              cmd w (SetTrainPeripheral (tr_id tr) (tp_id m) st (b_id b)) =
+                Done 0 [(b_addr b, MSG_CS_DRIVE,
+                         [tr_addrl tr; tr_addrh tr; steps_fmt (tr_steps tr); act0; 0] ++ set_nth idx0 fbyte [0; 0; 0; 0])] w' /\
+              (forall k, N.testbit fbyte k = fn_spec_bit tr ts0 m st lo0 hi0 k) /\
+              find_tst w' (tr_id tr) =
+                Some (mk_tst (tr_id tr) (ts_speed ts0) (ts_fwd ts0) 4
+                             (upd_first (fun q => tq_id q =? tp_id m) (fun q => mk_tpst (tq_id q) st) (ts_pers ts0))) /\
+              (forall t', t' <> tr_id tr -> find_tst w' t' = find_tst w t') /\
+              w_boards w' = w_boards w /\ w_trains w' = w_trains w /\ w_dpts w' = w_dpts w /\ w_dsigs w' = w_dsigs w /\ w_revs w' = w_revs w) as K.
+  { intros act lo hi idx n Eg Ha Hn Hdu Hfb.
+    set (p := fn_drive tr ts m st act lo hi idx).
+    exists ts, (state_cs_drive w p), act, lo, hi, idx, (fn_byte tr ts m st lo hi).
+    assert (find_train_by_dcc w (dv_addrl p) (dv_addrh p) = Some tr) as Hd by (apply find_train_by_dcc_own; assumption).
+    split; [exact Hts|]. split; [exact Eg|]. split; [|split; [|split; [|split; [|apply state_cs_drive_rest]]]].
+    - cbn [cmd]. rewrite (tper_cmd_eq w tr ts Hwf Htr Hts Hwts b m st Hb Hc Hk Hh Hm Hst Hg act lo hi idx Eg Ha).
+      fold p. unfold drive_data. unfold p at 1 2 3 4 5 6 7 8 9. cbn [fn_drive dv_addrl dv_addrh dv_fmt dv_active dv_speed dv_f1 dv_f2 dv_f3 dv_f4].
+      cbn [app]. rewrite <- Hfb at 5. reflexivity.
+    - intros k. apply fn_byte_bits; assumption.
+    - rewrite (state_cs_drive_own w tr p Hd), Hts. cbn [option_map].
+      destruct (Hdu p eq_refl) as (D1 & D2 & D3 & D4 & D5).
+      destruct (drive_update w p ts) as [i sp fw ak pe] eqn:Edu. cbn [ts_pers ts_speed ts_fwd ts_ack ts_id] in *. subst.
+      rewrite (fn_tsid tr ts Hwts). f_equal. f_equal.
+      assert ([dv_f1 p; dv_f2 p; dv_f3 p; dv_f4 p] = set_nth idx (fn_byte tr ts m st lo hi) [0; 0; 0; 0]) as -> by exact Hfb.
+      rewrite <- (fn_tsid tr ts Hwts). apply (drive_group_ok w tr ts Hwf Htr Hwts m st Hh Hm Hst Hg act lo hi idx Eg n Hn).
+    - intros t' Hne. apply (state_cs_drive_other w tr p t' Hd Hne). }
+  destruct (group_cases (tp_bit m) Hg H32) as [Eg|[Eg|[Eg|[Eg|Eg]]]].
+  - apply (K 2 0 4 0%nat 5%nat Eg); [lia|reflexivity| |reflexivity].
+    intros p Hp. unfold drive_update. rewrite Hp. cbn. repeat split; reflexivity.
+  - apply (K 4 8 11 1%nat 4%nat Eg); [lia|reflexivity| |reflexivity].
+    intros p Hp. unfold drive_update. rewrite Hp. cbn. repeat split; reflexivity.
+  - apply (K 8 12 15 1%nat 4%nat Eg); [lia|reflexivity| |reflexivity].
+    intros p Hp. unfold drive_update. rewrite Hp. cbn. repeat split; reflexivity.
+  - apply (K 16 16 23 2%nat 8%nat Eg); [lia|reflexivity| |reflexivity].
+    intros p Hp. unfold drive_update. rewrite Hp. cbn. repeat split; reflexivity.
+  - apply (K 32 24 31 3%nat 8%nat Eg); [lia|reflexivity| |reflexivity].
+    intros p Hp. unfold drive_update. rewrite Hp. cbn. repeat split; reflexivity.
+Qed.
+
+(* ================================================================== no fault, return code 0 or 1 *)
+Lemma set_train_speed_ret01 w t s o r m w' : set_train_speed w t s o = Done r m w' -> r = 0 \/ r = 1.
+Proof. unfold set_train_speed. break_goal; intros H; inversion H; auto. Qed.
+
+Lemma cmd_ret01 w c r m w' : cmd w c = Done r m w' -> r = 0 \/ r = 1.
+Proof.
+  destruct c; cbn [cmd].
+  - unfold set_accessory. break_goal; intros H; inversion H; auto.
+  - unfold set_accessory. break_goal; intros H; inversion H; auto.
+  - unfold set_peripheral. break_goal; intros H; inversion H; auto.
+  - apply set_train_speed_ret01.
+  - unfold set_calibrated_train_speed. break_goal; first [apply set_train_speed_ret01 | intros H; inversion H; auto].
+  - unfold emergency_stop_train. break_goal; intros H; inversion H; auto.
+  - unfold set_train_peripheral. break_goal; intros H; inversion H; auto.
+  - unfold set_booster_power_state. break_goal; intros H; inversion H; auto.
+  - unfold set_track_output_state. break_goal; intros H; inversion H; auto.
+  - unfold set_track_output_state_all. intros H; inversion H; auto.
+  - unfold request_reverser_state. break_goal; intros H; inversion H; auto.
+Qed.
+
+Lemma set_train_speed_nofault w t s o f : wfb w = true -> set_train_speed w t s o <> Fault f.
+Proof.
+  intros Hwf. unfold set_train_speed.
+  destruct ((s <? -126)%Z || (126 <? s)%Z)%bool; [discriminate|].
+  destruct (find_train w t) as [tr|] eqn:Et; [|discriminate].
+  destruct (find_board w o) as [b|]; [|discriminate].
+  destruct (negb (b_conn b)); [discriminate|]. destruct (negb (is_track_output b)); [discriminate|].
+  apply (find_key_in tr_id) in Et as [Ht1 Ht2]. destruct (tst_of_train w tr Hwf Ht1) as [ts [Hts _]]. rewrite Ht2 in Hts.
+  rewrite Hts. destruct (s =? 0)%Z; destruct (send_cs_drive _ _ _); discriminate.
+Qed.
+
+Lemma cmd_nofault w c f : wfb w = true -> cmd w c <> Fault f.
+Proof.
+  intros Hwf. destruct c; cbn [cmd].
+  - unfold set_accessory. break_goal; discriminate.
+  - unfold set_accessory. break_goal; discriminate.
+  - unfold set_peripheral. break_goal; discriminate.
+  - apply set_train_speed_nofault, Hwf.
+  - unfold set_calibrated_train_speed.
+    destruct ((speed <? -9)%Z || (9 <? speed)%Z)%bool eqn:Er; [discriminate|].
+    destruct (find_train w t) as [tr|] eqn:Et; [|discriminate].
+    destruct (tr_calib tr) as [cal|] eqn:Ecal; [|discriminate].
+    destruct (speed =? 0)%Z eqn:E0; [apply set_train_speed_nofault, Hwf|].
+    apply orb_false_iff in Er as [E1 E2]. apply Z.ltb_ge in E1, E2. apply Z.eqb_neq in E0.
+    apply (find_key_in tr_id) in Et as [Ht1 Ht2].
+    pose proof (wfb_parts w Hwf) as (_ & _ & _ & Hwt & _).
+    pose proof (proj1 (forallb_forall _ _) Hwt tr Ht1) as W. unfold wf_train in W. rewrite Ecal in W.
+    apply andb_true_iff in W as [_ W]. apply andb_true_iff in W as [Wl _]. apply Nat.eqb_eq in Wl.
+    destruct (nth_error cal (Nat.pred (Z.abs_nat speed))) eqn:En; [apply set_train_speed_nofault, Hwf|].
+    apply nth_error_None in En. lia.
+  - unfold emergency_stop_train. break_goal; discriminate.
+  - unfold set_train_peripheral.
+    destruct (find_train w t) as [tr|] eqn:Et; [|discriminate].
+    destruct (find_board w out) as [b|]; [|discriminate].
+    destruct (negb (b_conn b)); [discriminate|]. destruct (negb (is_track_output b)); [discriminate|].
+    destruct (find (fun m => tp_id m =? p) (tr_pers tr)) as [m|] eqn:Ep; [|discriminate].
+    apply (find_key_in tr_id) in Et as [Ht1 Ht2]. destruct (tst_of_train w tr Hwf Ht1) as [ts [Hts Hwts]].
+    apply (find_key_in tp_id) in Ep as [Hm _].
+    destruct (tp_group (tp_bit m)) as [[[act lo] hi] idx].
+    rewrite (cur_bits_ok w tr ts Hwf Ht1 Hts Hwts lo hi).
+    pose proof (fn_bit32 w tr Hwf Ht1 m Hm) as H32. apply N.leb_gt in H32. rewrite H32.
+    destruct (send_cs_drive _ _ _). discriminate.
+  - unfold set_booster_power_state. break_goal; discriminate.
+  - unfold set_track_output_state. break_goal; discriminate.
+  - unfold set_track_output_state_all. discriminate.
+  - unfold request_reverser_state. break_goal; discriminate.
+Qed.
+
+Lemma cmd_total w c : wfb w = true -> exists r m w', cmd w c = Done r m w' /\ (r = 0 \/ r = 1).
+Proof.
+  intros Hwf. destruct (cmd w c) as [f|r m w'] eqn:E.
+  - exfalso. exact (cmd_nofault w c f Hwf E).
+  - exists r, m, w'. split; [reflexivity|]. exact (cmd_ret01 w c r m w' E).
+Qed.
+
+(* ================================================================== well-formedness is preserved *)
+Definition keeps (w w' : world) : Prop :=
+  w_boards w' = w_boards w /\ w_trains w' = w_trains w /\
+  (forallb2 wf_tst (w_trains w) (w_tst w) = true -> forallb2 wf_tst (w_trains w) (w_tst w') = true) /\
+  map ds_id (w_dpts w') = map ds_id (w_dpts w) /\ map ds_id (w_dsigs w') = map ds_id (w_dsigs w) /\
+  map rs_id (w_revs w') = map rs_id (w_revs w).
+
+Lemma keeps_refl w : keeps w w.
+Proof. repeat split; auto. Qed.
+Lemma keeps_trans a b c : keeps a b -> keeps b c -> keeps a c.
+Proof.
+  intros (A1 & A2 & A3 & A4 & A5 & A6) (B1 & B2 & B3 & B4 & B5 & B6). rewrite A2 in B3.
+  repeat split; try congruence. auto.
+Qed.
+
+Lemma keeps_wfb w w' : keeps w w' -> wfb w = true -> wfb w' = true.
+Proof.
+  intros (K1 & K2 & K3 & K4 & K5 & K6) H. unfold wfb in *. unfold all_dacc in *. rewrite K1, K2, K4, K5, K6.
+  repeat (apply andb_true_iff in H; destruct H as [H ?]).
+  repeat (apply andb_true_iff; split); try assumption. apply K3. assumption.
+Qed.
+
+Lemma forallb2_upd_first {A B} (R : A -> B -> bool) p f : forall l1 l2,
+  (forall x y, R x y = true -> R x (f y) = true) -> forallb2 R l1 l2 = true -> forallb2 R l1 (upd_first p f l2) = true.
+Proof.
+  induction l1 as [|x l1 IH]; intros [|y l2] Hf H; try discriminate; [reflexivity|].
+  cbn in *. apply andb_true_iff in H as [H1 H2]. destruct (p y); cbn; apply andb_true_iff; split; auto.
+Qed.
+
+Lemma fbit_le1 fb i : fbit fb i <= 1.
+Proof.
+  unfold fbit. change 1 with (N.ones 1) at 1. rewrite N.land_ones. change (2 ^ 1) with 2.
+  pose proof (N.mod_upper_bound (N.shiftr (nth (N.to_nat (i / 8)) fb 0) (i mod 8)) 2). lia.
+Qed.
+
+Definition ps_ok (ids : list N) (ps : list tpst) : Prop :=
+  map tq_id ps = ids /\ forallb (fun q => tq_state q <=? 1) ps = true.
+
+Lemma upd_first_set_ok ids ps k v : v <= 1 -> ps_ok ids ps ->
+  ps_ok ids (upd_first (fun q => tq_id q =? k) (fun q => mk_tpst (tq_id q) v) ps).
+Proof.
+  intros Hv [H1 H2]. split.
+  - rewrite (upd_first_keys tq_id); [exact H1|reflexivity].
+  - clear H1. induction ps as [|q ps IH]; [reflexivity|]. cbn in *. apply andb_true_iff in H2 as [Hq Hr].
+    destruct (tq_id q =? k); cbn; apply andb_true_iff; split; auto. apply N.leb_le. exact Hv.
+Qed.
+
+Lemma drive_bit_ok w tsid fb ids ps i : ps_ok ids ps -> ps_ok ids (drive_bit w tsid fb ps i).
+Proof.
+  intros H. unfold drive_bit. destruct (find_train w tsid) as [tr|]; [|exact H].
+  destruct (find (fun m => tp_bit m =? i) (tr_pers tr)) as [m|]; [|exact H].
+  apply upd_first_set_ok; [apply fbit_le1|exact H].
+Qed.
+
+Lemma drive_group_ps_ok w tsid fb ids lo n : forall ps, ps_ok ids ps -> ps_ok ids (drive_group w tsid fb lo n ps).
+Proof.
+  unfold drive_group. generalize (nrange lo n). intros l. induction l as [|i l IH]; intros ps H; [exact H|].
+  cbn [fold_left]. apply IH. apply drive_bit_ok. exact H.
+Qed.
+
+Lemma wf_tst_drive_update w p tr ts : wf_tst tr ts = true -> wf_tst tr (drive_update w p ts) = true.
+Proof.
+  intros H. unfold wf_tst in H. apply andb_true_iff in H as [H H3]. apply andb_true_iff in H as [H1 H2].
+  apply list_eqb_eq in H2.
+  assert (ps_ok (map tp_id (tr_pers tr)) (ts_pers ts)) as P0 by (split; assumption).
+  assert (forall ps, ps_ok (map tp_id (tr_pers tr)) ps ->
+            (ts_id ts =? tr_id tr) && list_eqb (map tq_id ps) (map tp_id (tr_pers tr)) && forallb (fun q => tq_state q <=? 1) ps = true) as Fin.
+  { intros ps [P1 P2]. rewrite H1, P1, list_eqb_refl, P2. reflexivity. }
+  unfold drive_update. destruct (dv_active p =? 0).
+  - unfold wf_tst. cbn [ts_id ts_pers]. apply Fin. split.
+    + rewrite map_map. cbn. exact H2.
+    + apply forallb_forall. intros q Hq. apply in_map_iff in Hq as [q0 [<- _]]. reflexivity.
+  - unfold wf_tst. cbn [ts_id ts_pers]. apply Fin.
+    repeat match goal with
+           | |- ps_ok _ (if ?c then _ else _) => destruct c
+           | |- ps_ok _ (drive_group _ _ _ _ _ _) => apply drive_group_ps_ok
+           end; exact P0.
+Qed.
+
+Lemma state_cs_drive_keeps w p : keeps w (state_cs_drive w p).
+Proof.
+  unfold state_cs_drive. destruct (find_train_by_dcc w (dv_addrl p) (dv_addrh p)) as [tr|]; [|apply keeps_refl].
+  repeat split; auto. cbn [w_tst set_tst w_trains]. intros H. apply forallb2_upd_first; [|exact H].
+  intros x y. apply wf_tst_drive_update.
+Qed.
+
+Lemma send_cs_drive_keeps w a p : keeps w (snd (send_cs_drive w a p)).
+Proof. unfold send_cs_drive. break_goal; cbn [snd]; first [apply keeps_refl|apply state_cs_drive_keeps]. Qed.
+
+Lemma set_dacc_st_keeps (point : bool) w l : map ds_id l = map ds_id (get_dacc_st point w) -> keeps w (set_dacc_st point w l).
+Proof. destruct point; cbn; intros H; repeat split; auto. Qed.
+
+Lemma state_cs_accessory_keeps w a al ah d t : keeps w (state_cs_accessory w a al ah d t).
+Proof.
+  unfold state_cs_accessory.
+  destruct (find_board_by_addr w a) as [b|]; [|apply keeps_refl].
+  destruct (find (dacc_addr_eqb al ah) (b_dpts b)) as [m|].
+  - apply set_dacc_st_keeps. apply (upd_first_keys ds_id). reflexivity.
+  - destruct (find (dacc_addr_eqb al ah) (b_dsigs b)) as [m|]; [|apply keeps_refl].
+    apply set_dacc_st_keeps. apply (upd_first_keys ds_id). reflexivity.
+Qed.
+
+Lemma dcc_ports_fold_keeps a m ports : forall acc, keeps (snd acc) (snd (fold_left (dcc_ports_step a m) ports acc)).
+Proof.
+  induction ports as [|pv ports IH]; intros acc; [apply keeps_refl|]. cbn [fold_left].
+  eapply keeps_trans; [|apply IH]. unfold dcc_ports_step, send_cs_accessory. cbn [snd].
+  apply state_cs_accessory_keeps.
+Qed.
+
+Lemma set_train_speed_keeps w t s o r m w' : set_train_speed w t s o = Done r m w' -> keeps w w'.
+Proof.
+  unfold set_train_speed. break_goal; intros H; inversion H; subst; try apply keeps_refl.
+  all: match goal with Hs : send_cs_drive ?w0 ?a ?p = (_, ?w1) |- keeps ?w0 ?w1 =>
+         let K := fresh in pose proof (send_cs_drive_keeps w0 a p) as K; rewrite Hs in K; exact K end.
+Qed.
+
+Definition res_w (d : world) (r : res) : world := match r with Done _ _ w' => w' | Fault _ => d end.
+
+Lemma set_accessory_keeps (point : bool) w id asp r m w' : set_accessory point w id asp = Done r m w' -> keeps w w'.
+Proof.
+  unfold set_accessory. destruct (acc_search point (w_boards w) id) as [[b [mb|md]]|].
+  - break_goal; intros H; inversion H; subst; apply keeps_refl.
+  - destruct (negb (b_conn b)); [intros H; inversion H; subst; apply keeps_refl|].
+    destruct (find_daspect (dc_aspects md) asp) as [a|]; [|intros H; inversion H; subst; apply keeps_refl].
+    destruct (fold_left (dcc_ports_step (b_addr b) md) (da_ports a) ([], w)) as [ms w1] eqn:Ef.
+    pose proof (dcc_ports_fold_keeps (b_addr b) md (da_ports a) ([], w)) as K. rewrite Ef in K. cbn [snd] in K.
+    destruct (existsb (fun s => ds_id s =? id) (get_dacc_st point w1)); intros H; apply (f_equal (res_w w)) in H; cbn [res_w] in H; subst w'.
+    + eapply keeps_trans; [exact K|]. apply set_dacc_st_keeps. apply (upd_first_keys ds_id). reflexivity.
+    + exact K.
+  - intros H; inversion H; subst; apply keeps_refl.
+Qed.
+
+Lemma cmd_keeps w c r m w' : cmd w c = Done r m w' -> keeps w w'.
+Proof.
+  destruct c; cbn [cmd].
+  - apply set_accessory_keeps.
+  - apply set_accessory_keeps.
+  - unfold set_peripheral. break_goal; intros H; inversion H; subst; apply keeps_refl.
+  - apply set_train_speed_keeps.
+  - unfold set_calibrated_train_speed. break_goal; first [apply set_train_speed_keeps | intros H; inversion H; subst; apply keeps_refl].
+  - unfold emergency_stop_train. break_goal; intros H; inversion H; subst; try apply keeps_refl.
+    all: match goal with Hs : send_cs_drive ?w0 ?a ?p = (_, ?w1) |- keeps ?w0 ?w1 =>
+           let K := fresh in pose proof (send_cs_drive_keeps w0 a p) as K; rewrite Hs in K; exact K end.
+  - unfold set_train_peripheral. break_goal; intros H; inversion H; subst; try apply keeps_refl.
+    all: match goal with Hs : send_cs_drive ?w0 ?a ?p = (_, ?w1) |- keeps ?w0 ?w1 =>
+           let K := fresh in pose proof (send_cs_drive_keeps w0 a p) as K; rewrite Hs in K; exact K end.
+  - unfold set_booster_power_state. break_goal; intros H; inversion H; subst; apply keeps_refl.
+  - unfold set_track_output_state. break_goal; intros H; inversion H; subst; apply keeps_refl.
+  - unfold set_track_output_state_all. intros H; inversion H; subst; apply keeps_refl.
+  - unfold request_reverser_state. break_goal; intros H; inversion H; subst; try apply keeps_refl.
+    repeat split; auto. cbn [w_revs set_revs]. apply (upd_first_keys rs_id). reflexivity.
+Qed.
+
+Lemma cmd_preserves_wf w c r m w' : wfb w = true -> cmd w c = Done r m w' -> wfb w' = true.
+Proof. intros Hwf H. exact (keeps_wfb w w' (cmd_keeps w c r m w' H) Hwf). Qed.
+
+(* ================================================================== node new / node lost / reverser feedback keep well-formedness *)
+Definition board_static (b : board) :=
+  (b_id b, b_uid b, b_pts b, b_dpts b, b_sigs b, b_dsigs b, b_pers b, b_revs b).
+
+Lemma board_set_conn_static b c a : board_static (board_set_conn b c a) = board_static b.
+Proof. reflexivity. Qed.
+
+Lemma map_static_eq {B} (g : board -> B) l l' : (forall b b', board_static b = board_static b' -> g b = g b') ->
+  map board_static l' = map board_static l -> map g l' = map g l.
+Proof.
+  intros Hg. revert l'. induction l as [|x l IH]; intros [|y l'] H; try discriminate; [reflexivity|].
+  pose proof (f_equal (@hd _ (board_static x)) H) as H1; pose proof (f_equal (@tl _) H) as H2; cbn [hd tl map] in H1, H2. cbn [map]. f_equal; [apply Hg; assumption|apply IH; assumption].
+Qed.
+
+Lemma flat_map_static_eq {B} (g : board -> list B) l l' : (forall b b', board_static b = board_static b' -> g b = g b') ->
+  map board_static l' = map board_static l -> flat_map g l' = flat_map g l.
+Proof. intros Hg H. rewrite !flat_map_concat_map. f_equal. apply map_static_eq; assumption. Qed.
+
+Lemma forallb_static_eq (g : board -> bool) l l' : (forall b b', board_static b = board_static b' -> g b = g b') ->
+  map board_static l' = map board_static l -> forallb g l' = forallb g l.
+Proof.
+  intros Hg. revert l'. induction l as [|x l IH]; intros [|y l'] H; try discriminate; [reflexivity|].
+  pose proof (f_equal (@hd _ (board_static x)) H) as H1; pose proof (f_equal (@tl _) H) as H2; cbn [hd tl map] in H1, H2. cbn [forallb]. f_equal; [apply Hg; assumption|apply IH; assumption].
+Qed.
+
+Lemma boards_static_wfb w bs : map board_static bs = map board_static (w_boards w) -> wfb w = true -> wfb (set_boards w bs) = true.
+Proof.
+  intros Hs H. unfold wfb in *. unfold all_dacc in *. cbn [set_boards w_boards w_trains w_tst w_dpts w_dsigs w_revs].
+  assert (forall b b', board_static b = board_static b' ->
+            b_id b = b_id b' /\ b_pts b = b_pts b' /\ b_dpts b = b_dpts b' /\ b_sigs b = b_sigs b' /\ b_dsigs b = b_dsigs b' /\
+            b_pers b = b_pers b' /\ b_revs b = b_revs b') as St.
+  { intros b b' E. unfold board_static in E. inversion E. repeat split; assumption. }
+  rewrite (map_static_eq b_id _ _ (fun b b' E => proj1 (St b b' E)) Hs).
+  rewrite (forallb_static_eq wf_board (w_boards w) bs).
+  2:{ intros b b' E. destruct (St b b' E) as (_ & E2 & E3 & E4 & E5 & E6 & _). unfold wf_board. rewrite E2, E3, E4, E5, E6. reflexivity. }
+  2: exact Hs.
+  rewrite (flat_map_static_eq (fun b => map ba_id (b_pts b) ++ map dc_id (b_dpts b)) (w_boards w) bs).
+  2:{ intros b b' E. destruct (St b b' E) as (_ & E2 & E3 & _). rewrite E2, E3. reflexivity. } 2: exact Hs.
+  rewrite (flat_map_static_eq (fun b => map ba_id (b_sigs b) ++ map dc_id (b_dsigs b)) (w_boards w) bs).
+  2:{ intros b b' E. destruct (St b b' E) as (_ & _ & _ & E4 & E5 & _). rewrite E4, E5. reflexivity. } 2: exact Hs.
+  rewrite (flat_map_static_eq (fun b => map pe_id (b_pers b)) (w_boards w) bs).
+  2:{ intros b b' E. destruct (St b b' E) as (_ & _ & _ & _ & _ & E6 & _). rewrite E6. reflexivity. } 2: exact Hs.
+  rewrite (flat_map_static_eq (fun b => map rv_id (b_revs b)) (w_boards w) bs).
+  2:{ intros b b' E. destruct (St b b' E) as (_ & _ & _ & _ & _ & _ & E7). rewrite E7. reflexivity. } 2: exact Hs.
+  rewrite (flat_map_static_eq (fun b => map dc_id (b_dpts b)) (w_boards w) bs).
+  2:{ intros b b' E. destruct (St b b' E) as (_ & _ & E3 & _). rewrite E3. reflexivity. } 2: exact Hs.
+  rewrite (flat_map_static_eq (fun b => map dc_id (b_dsigs b)) (w_boards w) bs).
+  2:{ intros b b' E. destruct (St b b' E) as (_ & _ & _ & _ & E5 & _). rewrite E5. reflexivity. } 2: exact Hs.
+  rewrite (flat_map_static_eq (fun b => b_dpts b ++ b_dsigs b) (w_boards w) bs).
+  2:{ intros b b' E. destruct (St b b' E) as (_ & _ & E3 & _ & E5 & _). rewrite E3, E5. reflexivity. } 2: exact Hs.
+  exact H.
+Qed.
+
+Lemma upd_first_static p c a l : map board_static (upd_first p (fun b => board_set_conn b c (a b)) l) = map board_static l.
+Proof. induction l as [|x l IH]; [reflexivity|]. cbn. destruct (p x); cbn; [reflexivity|rewrite IH; reflexivity]. Qed.
+
+Lemma node_new_wf w parent local uid : wfb w = true -> wfb (node_new w parent local uid) = true.
+Proof.
+  intros H. unfold node_new. apply boards_static_wfb; [|exact H].
+  apply (upd_first_static _ true (fun _ => node_new_addr parent local)).
+Qed.
+
+Lemma node_lost_wf w uid : wfb w = true -> wfb (node_lost w uid) = true.
+Proof.
+  intros H. unfold node_lost. destruct (find (fun b => list_eqb (b_uid b) uid) (w_boards w)) as [b0|]; [|exact H].
+  pose proof (upd_first_static (fun b => list_eqb (b_uid b) uid) false b_addr (w_boards w)) as S1.
+  destruct (N.testbit (b_class b0) 7); apply boards_static_wfb; try exact H; [|exact S1].
+  rewrite <- S1. rewrite map_map. apply map_ext. intros b. destruct (is_subnode (b_addr b0) (b_addr b)); reflexivity.
+Qed.
+
+Lemma rev_feedback_wf w id v : wfb w = true -> wfb (rev_feedback w id v) = true.
+Proof.
+  intros H. apply (keeps_wfb w); [|exact H]. repeat split; auto. cbn [w_revs rev_feedback set_revs].
+  apply (upd_first_keys rs_id). reflexivity.
+Qed.
+
+(* ================================================================== any order: event sequences *)
+Inductive event :=
+| ECmd (c : command)
+| ENodeNew (parent : addr3) (local : N) (uid : list N)
+| ENodeLost (uid : list N)
+| ERevFeedback (id v : N).
+
+Definition step (w : world) (e : event) : option (option (N * list hmsg) * world) :=
+  match e with
+  | ECmd c => match cmd w c with Fault _ => None | Done r m w' => Some (Some (r, m), w') end
+  | ENodeNew p l u => Some (None, node_new w p l u)
+  | ENodeLost u => Some (None, node_lost w u)
+  | ERevFeedback i v => Some (None, rev_feedback w i v)
+  end.
+
+Fixpoint run (w : world) (es : list event) : option (list (option (N * list hmsg)) * world) :=
+  match es with
+  | [] => Some ([], w)
+  | e :: r => match step w e with
+              | None => None
+              | Some (o, w1) => match run w1 r with None => None | Some (os, w2) => Some (o :: os, w2) end
+              end
+  end.
+
+Lemma step_wf w e : wfb w = true -> exists o w', step w e = Some (o, w') /\ wfb w' = true.
+Proof.
+  intros H. destruct e; cbn [step].
+  - destruct (cmd_total w c H) as (r & m & w' & E & _). rewrite E. eexists; eexists. split; [reflexivity|].
+    exact (cmd_preserves_wf w c r m w' H E).
+  - eexists; eexists. split; [reflexivity|]. apply node_new_wf, H.
+  - eexists; eexists. split; [reflexivity|]. apply node_lost_wf, H.
+  - eexists; eexists. split; [reflexivity|]. apply rev_feedback_wf, H.
+Qed.
+
+(* from a well-formed world every event sequence runs without a fault and ends in a well-formed world; hence
+   every per-command theorem applies at every step of any history *)
+Lemma run_wf es : forall w, wfb w = true -> exists os w', run w es = Some (os, w') /\ wfb w' = true.
+Proof.
+  induction es as [|e es IH]; intros w H; [exists [], w; auto|]. cbn [run].
+  destruct (step_wf w e H) as (o & w1 & E & H1). rewrite E.
+  destruct (IH w1 H1) as (os & w2 & E2 & H2). rewrite E2. eexists; eexists. split; [reflexivity|exact H2].
+Qed.
+
+Lemma init_world_wf_example : wfb (init_world [wit_b1; wit_b6] [wit_tr7; wit_tr12]) = true.
+Proof. vm_compute. reflexivity. Qed.
+
+(* ================================================================== DCC accessories (points-dcc / signals-dcc) *)
+Lemma addr_eqb_refl a : addr_eqb a a = true.
+Proof. destruct a as [[x y] z]. cbn. rewrite !N.eqb_refl. reflexivity. Qed.
+Lemma addr_eqb_sym a b : addr_eqb a b = addr_eqb b a.
+Proof. destruct a as [[x y] z], b as [[x' y'] z']. cbn. rewrite (N.eqb_sym x), (N.eqb_sym y), (N.eqb_sym z). reflexivity. Qed.
+
+Lemma find_board_by_addr_own bs b : conn_addrs_distinct bs = true -> In b bs -> b_conn b = true ->
+  find (fun c => b_conn c && addr_eqb (b_addr c) (b_addr b)) bs = Some b.
+Proof.
+  induction bs as [|c r IH]; intros Hd Hin Hc; [contradiction|]. cbn in Hd. apply andb_true_iff in Hd as [Hc1 Hd].
+  cbn [find]. destruct (b_conn c && addr_eqb (b_addr c) (b_addr b)) eqn:E.
+  - destruct Hin as [->|Hin]; [reflexivity|]. exfalso. apply andb_true_iff in E as [E1 E2]. rewrite E1 in Hc1. cbn in Hc1.
+    apply negb_true_iff in Hc1. apply not_true_iff_false in Hc1. apply Hc1. apply existsb_exists. exists b.
+    split; [exact Hin|]. rewrite Hc, addr_eqb_sym, E2. reflexivity.
+  - destruct Hin as [->|Hin]; [rewrite Hc, addr_eqb_refl in E; discriminate|]. apply IH; assumption.
+Qed.
+
+Definition dkey (m : dacc) : N * N := (dc_addrl m, dc_addrh m).
+
+Lemma nodupb2_app_l a b : nodupb2 (a ++ b) = true -> nodupb2 a = true.
+Proof.
+  induction a as [|x a IH]; intros H; [reflexivity|]. cbn in *. apply andb_true_iff in H as [H1 H2].
+  apply andb_true_iff. split; [|auto]. rewrite existsb_app in H1. apply negb_true_iff in H1. apply orb_false_iff in H1 as [H1 _].
+  rewrite H1. reflexivity.
+Qed.
+
+Lemma nodupb2_flat_map_in {A} (g : A -> list dacc) bs b : nodupb2 (map dkey (flat_map g bs)) = true -> In b bs ->
+  nodupb2 (map dkey (g b)) = true.
+Proof.
+  induction bs as [|c r IH]; intros H Hin; [contradiction|]. cbn [flat_map] in H. rewrite map_app in H.
+  destruct Hin as [->|Hin]; [apply nodupb2_app_l in H; exact H|]. apply nodupb2_app_r in H. auto.
+Qed.
+
+Lemma find_dacc_unique l m : nodupb2 (map dkey l) = true -> In m l -> find (dacc_addr_eqb (dc_addrl m) (dc_addrh m)) l = Some m.
+Proof.
+  induction l as [|x l IH]; intros Hnd Hin; [contradiction|]. cbn in Hnd. apply andb_true_iff in Hnd as [Hx Hnd].
+  cbn [find]. unfold dacc_addr_eqb at 1. destruct Hin as [->|Hin].
+  - rewrite !N.eqb_refl. reflexivity.
+  - destruct ((dc_addrh x =? dc_addrh m) && (dc_addrl x =? dc_addrl m)) eqn:E; [|auto].
+    exfalso. apply negb_true_iff in Hx. apply not_true_iff_false in Hx. apply Hx.
+    apply existsb_exists. exists (dkey m). split; [apply in_map, Hin|].
+    apply andb_true_iff in E as [E1 E2]. cbn. rewrite E1, E2. reflexivity.
+Qed.
+
+Lemma find_dacc_none l1 l2 m : nodupb2 (map dkey (l1 ++ l2)) = true -> In m l2 ->
+  find (dacc_addr_eqb (dc_addrl m) (dc_addrh m)) l1 = None.
+Proof.
+  induction l1 as [|x l1 IH]; intros Hnd Hin; [reflexivity|]. cbn in Hnd. apply andb_true_iff in Hnd as [Hx Hnd].
+  cbn [find]. unfold dacc_addr_eqb at 1.
+  destruct ((dc_addrh x =? dc_addrh m) && (dc_addrl x =? dc_addrl m)) eqn:E; [|auto].
+  exfalso. apply negb_true_iff in Hx. apply not_true_iff_false in Hx. apply Hx.
+  apply existsb_exists. exists (dkey m). split; [apply in_map, in_or_app; right; exact Hin|].
+  apply andb_true_iff in E as [E1 E2]. cbn. rewrite E1, E2. reflexivity.
+Qed.
+
+Lemma board_dacc_nodup w b : wfb w = true -> In b (w_boards w) -> nodupb2 (map dkey (b_dpts b ++ b_dsigs b)) = true.
+Proof.
+  intros Hwf Hb. apply wfb_parts in Hwf. destruct Hwf as (_ & _ & _ & _ & _ & _ & _ & _ & _ & _ & _ & _ & Hd).
+  apply nodupb2_app_l in Hd. unfold all_dacc in Hd.
+  exact (nodupb2_flat_map_in (fun b => b_dpts b ++ b_dsigs b) (w_boards w) b Hd Hb).
+Qed.
+
+(* what one MSG_CS_ACCESSORY with time 0 does to the tracked state of its accessory *)
+Definition upd_d (data : N) (s : dst) : dst :=
+  mk_dst (ds_id s) None (N.land data 31) (N.testbit data 5) (negb (N.testbit data 6)) 0 0 (ds_ack s).
+Definition ports_upd (ext : N) (ports : list (N * N)) (s : dst) : dst :=
+  fold_left (fun s pv => upd_d (dcc_port_data ext pv) s) ports s.
+Definition set_sid (a : N) (s : dst) : dst :=
+  mk_dst (ds_id s) (Some a) (ds_val s) (ds_coil s) (ds_oct s) (ds_unit s) (ds_time s) (ds_ack s).
+
+Lemma ports_upd_id ext ports : forall s, ds_id (ports_upd ext ports s) = ds_id s.
+Proof. induction ports as [|pv l IH]; intros s; [reflexivity|]. unfold ports_upd in *. cbn [fold_left]. rewrite IH. reflexivity. Qed.
+Lemma ports_upd_ack ext ports : forall s, ds_ack (ports_upd ext ports s) = ds_ack s.
+Proof. induction ports as [|pv l IH]; intros s; [reflexivity|]. unfold ports_upd in *. cbn [fold_left]. rewrite IH. reflexivity. Qed.
+Lemma ports_upd_last ext ports pv s : ports_upd ext (ports ++ [pv]) s = upd_d (dcc_port_data ext pv) s.
+Proof.
+  unfold ports_upd. rewrite fold_left_app. cbn [fold_left]. unfold upd_d at 1.
+  fold (ports_upd ext ports s). rewrite ports_upd_id, ports_upd_ack. reflexivity.
+Qed.
+
+Lemma upd_first_compose {A} (p : A -> bool) (f g : A -> A) l : (forall x, p (f x) = p x) ->
+  upd_first p g (upd_first p f l) = upd_first p (fun x => g (f x)) l.
+Proof.
+  intros Hp. induction l as [|x l IH]; [reflexivity|]. cbn. destruct (p x) eqn:E; cbn.
+  - rewrite Hp, E. reflexivity.
+  - rewrite E, IH. reflexivity.
+Qed.
+Lemma upd_first_ext {A} (p : A -> bool) (f g : A -> A) l : (forall x, f x = g x) -> upd_first p f l = upd_first p g l.
+Proof. intros H. induction l as [|x l IH]; [reflexivity|]. cbn. rewrite H, IH. reflexivity. Qed.
+Lemma upd_first_idfun {A} (p : A -> bool) l : upd_first p (fun x => x) l = l.
+Proof. induction l as [|x l IH]; [reflexivity|]. cbn. rewrite IH. destruct (p x); reflexivity. Qed.
+
+Lemma set_dacc_st_get (point : bool) w : set_dacc_st point w (get_dacc_st point w) = w.
+Proof. destruct w, point; reflexivity. Qed.
+Lemma get_set_dacc_st (point : bool) w l : get_dacc_st point (set_dacc_st point w l) = l.
+Proof. destruct point; reflexivity. Qed.
+Lemma set_set_dacc_st (point : bool) w l1 l2 : set_dacc_st point (set_dacc_st point w l1) l2 = set_dacc_st point w l2.
+Proof. destruct point; reflexivity. Qed.
+Lemma set_dacc_st_boards (point : bool) w l : w_boards (set_dacc_st point w l) = w_boards w.
+Proof. destruct point; reflexivity. Qed.
+
+Section Dcc.
+  Variables (point : bool) (w : world) (b : board) (m : dacc).
+  Hypothesis Hwf : wfb w = true.
+  Hypothesis Hdist : conn_addrs_distinct (w_boards w) = true.
+  Hypothesis Hb : In b (w_boards w).
+  Hypothesis Hm : In m (if point then b_dpts b else b_dsigs b).
+  Hypothesis Hc : b_conn b = true.
+  Let P := fun s : dst => ds_id s =? dc_id m.
+
+  Lemma state_cs_accessory_own w1 data : w_boards w1 = w_boards w ->
+    state_cs_accessory w1 (b_addr b) (dc_addrl m) (dc_addrh m) data 0 =
+    set_dacc_st point w1 (upd_first P (upd_d data) (get_dacc_st point w1)).
+  Proof.
+    intros Hbs. unfold state_cs_accessory, find_board_by_addr. rewrite Hbs, (find_board_by_addr_own _ b Hdist Hb Hc).
+    pose proof (board_dacc_nodup w b Hwf Hb) as Hnd. destruct point.
+    - rewrite (find_dacc_unique (b_dpts b) m); [reflexivity| |exact Hm]. rewrite map_app in Hnd. apply nodupb2_app_l in Hnd. exact Hnd.
+    - rewrite (find_dacc_none (b_dpts b) (b_dsigs b) m Hnd Hm).
+      rewrite (find_dacc_unique (b_dsigs b) m); [reflexivity| |exact Hm]. rewrite map_app in Hnd. apply nodupb2_app_r in Hnd. exact Hnd.
+  Qed.
+
+  Lemma dcc_ports_fold_own ports : forall ms w1, w_boards w1 = w_boards w ->
+    fold_left (dcc_ports_step (b_addr b) m) ports (ms, w1) =
+    (ms ++ map (fun pv => (b_addr b, MSG_CS_ACCESSORY, [dc_addrl m; dc_addrh m; dcc_port_data (dc_ext m) pv; 0])) ports,
+     set_dacc_st point w1 (upd_first P (ports_upd (dc_ext m) ports) (get_dacc_st point w1))).
+  Proof.
+    induction ports as [|pv ports IH]; intros ms w1 Hbs.
+    - cbn. rewrite app_nil_r. unfold ports_upd. cbn [fold_left]. rewrite upd_first_idfun, set_dacc_st_get. reflexivity.
+    - cbn [fold_left]. unfold dcc_ports_step at 2. unfold send_cs_accessory. cbn [fst snd].
+      rewrite (state_cs_accessory_own w1 _ Hbs). rewrite IH by (rewrite set_dacc_st_boards; exact Hbs).
+      rewrite get_set_dacc_st, set_set_dacc_st, upd_first_compose by reflexivity.
+      cbn [map]. rewrite <- app_assoc. reflexivity.
+  Qed.
+
+  Lemma dcc_accessory_ok a : In a (dc_aspects m) ->
+    set_accessory point w (dc_id m) (da_id a) =
+    Done 0 (map (fun pv => (b_addr b, MSG_CS_ACCESSORY, [dc_addrl m; dc_addrh m; dcc_port_data (dc_ext m) pv; 0])) (da_ports a))
+         (set_dacc_st point w (upd_first P (fun s => set_sid (da_id a) (ports_upd (dc_ext m) (da_ports a) s)) (get_dacc_st point w))).
+  Proof.
+    intros Ha. unfold set_accessory.
+    rewrite (acc_search_dcc_unique point (w_boards w) b m (wfb_acc_nodup point w Hwf) Hb Hm), Hc. cbn [negb].
+    rewrite (dacc_aspect_unique point w b m a Hwf Hb Hm Ha).
+    rewrite (dcc_ports_fold_own (da_ports a) [] w eq_refl). cbn [app].
+    rewrite get_set_dacc_st.
+    assert (existsb (fun s => ds_id s =? dc_id m) (upd_first P (ports_upd (dc_ext m) (da_ports a)) (get_dacc_st point w)) = true) as ->.
+    { unfold P. apply (existsb_key_in ds_id). rewrite (upd_first_keys ds_id) by (intros; apply ports_upd_id).
+      exact (dacc_state_exists point w b m Hwf Hb Hm). }
+    rewrite set_set_dacc_st. fold P. rewrite upd_first_compose.
+    - reflexivity.
+    - intros x. unfold P. rewrite ports_upd_id. reflexivity.
+  Qed.
+End Dcc.
+
+(* the data byte: port in bits 0-4, value in bit 5, extended flag in bit 7 *)
+Definition port_data_check (x : N) : bool :=
+  (dcc_port_data 0 (x, 0) =? x) && (dcc_port_data 0 (x, 1) =? x + 32) &&
+  (dcc_port_data 1 (x, 0) =? x + 128) && (dcc_port_data 1 (x, 1) =? x + 160).
+Lemma port_data_all : forallb port_data_check (nrange 0 32) = true.
+Proof. vm_compute. reflexivity. Qed.
+
+Lemma dcc_port_data_spec ext p v : ext <= 1 -> v <= 1 -> dcc_port_data ext (p, v) = p mod 32 + 32 * v + 128 * ext.
+Proof.
+  intros He Hv.
+  assert (dcc_port_data ext (p, v) = dcc_port_data ext (p mod 32, v)) as ->.
+  { unfold dcc_port_data. cbn [fst snd]. change 31 with (N.ones 5). rewrite !N.land_ones. rewrite N.mod_mod by discriminate. reflexivity. }
+  assert (In (p mod 32) (nrange 0 32)) as Hin. { apply nrange_in. pose proof (N.mod_upper_bound p 32). cbn. lia. }
+  pose proof (proj1 (forallb_forall _ _) port_data_all _ Hin) as C. unfold port_data_check in C.
+  apply andb_true_iff in C as [C C4]. apply andb_true_iff in C as [C C3]. apply andb_true_iff in C as [C1 C2].
+  apply N.eqb_eq in C1, C2, C3, C4.
+  assert (ext = 0 \/ ext = 1) as [->| ->] by lia; assert (v = 0 \/ v = 1) as [->| ->] by lia; lia.
+Qed.
+
+Lemma dcc_accessory_cmd_ok : forall (point : bool) w b m a, wfb w = true -> conn_addrs_distinct (w_boards w) = true ->
+  In b (w_boards w) -> In m (if point then b_dpts b else b_dsigs b) -> b_conn b = true -> In a (dc_aspects m) ->
+  cmd w (if point then SwitchPoint (dc_id m) (da_id a) else SetSignal (dc_id m) (da_id a)) =
+  Done 0 (map (fun pv => (b_addr b, MSG_CS_ACCESSORY, [dc_addrl m; dc_addrh m; dcc_port_data (dc_ext m) pv; 0])) (da_ports a))
+       (set_dacc_st point w (upd_first (fun s => ds_id s =? dc_id m)
+                                       (fun s => set_sid (da_id a) (ports_upd (dc_ext m) (da_ports a) s)) (get_dacc_st point w))).
+Proof. intros point w b m a Hwf Hd Hb Hm Hc Ha. destruct point; cbn [cmd]; [exact (dcc_accessory_ok true w b m Hwf Hd Hb Hm Hc a Ha)|exact (dcc_accessory_ok false w b m Hwf Hd Hb Hm Hc a Ha)]. Qed.
+
+(* the tracked state of the switched accessory after an aspect with at least one port value *)
+Lemma dcc_accessory_final ext a ports pv s :
+  set_sid a (ports_upd ext (ports ++ [pv]) s) =
+  mk_dst (ds_id s) (Some a) (N.land (dcc_port_data ext pv) 31) (N.testbit (dcc_port_data ext pv) 5)
+         (negb (N.testbit (dcc_port_data ext pv) 6)) 0 0 (ds_ack s).
+Proof. rewrite ports_upd_last. reflexivity. Qed.
+
+Lemma reverser_ok w b m : wfb w = true -> In b (w_boards w) -> In m (b_revs b) -> b_conn b = true ->
+  (length (rv_cv m) <= 120)%nat ->
+  cmd w (RequestReverser (rv_id m) (b_id b)) =
+  Done 0 [(b_addr b, MSG_VENDOR_GET, N.of_nat (length (rv_cv m)) :: rv_cv m)]
+       (set_revs w (upd_first (fun s => rs_id s =? rv_id m) (fun s => mk_rst (rs_id s) 2) (w_revs w))).
+Proof.
+  intros Hwf Hb Hm Hc Hl. cbn [cmd]. unfold request_reverser_state.
+  rewrite (find_board_unique w b Hwf Hb), Hc. cbn [negb].
+  pose proof (wfb_parts w Hwf) as (_ & _ & _ & _ & _ & _ & _ & _ & Hr & _ & _ & Hrs & _).
+  rewrite (rev_search_unique (w_boards w) b m Hr Hb Hm).
+  assert (existsb (fun s => rs_id s =? rv_id m) (w_revs w) = true) as ->.
+  { apply (existsb_key_in rs_id). rewrite Hrs. apply in_flat_map. exists b. split; [exact Hb|apply in_map, Hm]. }
+  unfold send_vendor_get, byte. rewrite N.mod_small by lia.
+  assert ((120 <? N.of_nat (length (rv_cv m))) = false) as -> by (apply N.ltb_ge; lia).
+  rewrite Nat2N.id, firstn_all. reflexivity.
+Qed.
+
+(* ================================================================== bad commands, direct form *)
+Lemma cmd_bad w c : wfb w = true -> ~ accepted w c -> cmd w c = Done 1 [] w.
+Proof.
+  intros Hwf Hn. destruct (cmd_total w c Hwf) as (r & m & w' & E & [->| ->]).
+  - exfalso. apply Hn. exact (cmd_ret0_accepted w c m w' E).
+  - destruct (cmd_ret1_silent w c m w' Hwf E) as [-> ->]. exact E.
+Qed.
+
+Lemma cmd_bad_examples w : wfb w = true ->
+  (forall t s o, (s < -126 \/ 126 < s)%Z -> cmd w (SetTrainSpeed t s o) = Done 1 [] w) /\
+  (forall p a, (forall b, In b (w_boards w) -> b_conn b = true ->
+                          (forall m, In m (b_pts b) -> ba_id m <> p) /\ (forall m, In m (b_dpts b) -> dc_id m <> p)) ->
+               cmd w (SwitchPoint p a) = Done 1 [] w) /\
+  (forall t p s o, (forall b, In b (w_boards w) -> b_id b = o -> b_conn b = false) ->
+                   cmd w (SetTrainPeripheral t p s o) = Done 1 [] w).
+Proof.
+  intros Hwf. split; [|split].
+  - intros t s o Hs. apply cmd_bad; [exact Hwf|]. cbn [accepted]. intros (H & _). lia.
+  - intros p a H. apply cmd_bad; [exact Hwf|]. cbn [accepted]. intros (b & Hb & Hc & [(m & x & Hm & Hid & _)|(m & x & Hm & Hid & _)]).
+    + exact (proj1 (H b Hb Hc) m Hm Hid).
+    + exact (proj2 (H b Hb Hc) m Hm Hid).
+  - intros t p s o H. apply cmd_bad; [exact Hwf|]. cbn [accepted]. intros (_ & b & Hb & Hid & Hc & _).
+    rewrite (H b Hb Hid) in Hc. discriminate.
+Qed.
